@@ -166,6 +166,7 @@ pub struct LWorld {
     pub log: Vec<String>,
     pub record: bool,
     pub connected_since_ns: Option<u64>,
+    pub resolved: Vec<u32>,
 }
 
 impl LWorld {
@@ -174,7 +175,7 @@ impl LWorld {
         let client = ClientImpl::new(cfg.client_options(), cfg.connect_options());
         LWorld { cfg, client, now_ns: 0, loop_state: STOPPED, loop_dead: false, dead: false, violations: Vec::new(), connect_deadline_ns: 0, reconnect_deadline_ns: 0, last_wait: None, waits: Vec::new(),
             outbuf: Vec::with_capacity(4096), written: 0, wire_partial: Vec::new(), connect_seen: false, connack_sent: false, publishes_unacked: Vec::new(), disconnect_seen: false, attempts: 0, requests: 0, spent: 0, publishes: 0,
-            stream: Stream::Idle, stop_pending: false, start_since_stop: false, stopped_events: 0, closed: false, events: Vec::new(), log: Vec::new(), record: false, connected_since_ns: None }
+            stream: Stream::Idle, stop_pending: false, start_since_stop: false, stopped_events: 0, closed: false, events: Vec::new(), log: Vec::new(), record: false, connected_since_ns: None, resolved: Vec::new() }
     }
 
     pub fn replay(cfg: &Arc<LCfg>, history: &[LEv], record: bool) -> LWorld {
@@ -208,7 +209,24 @@ impl LWorld {
     }
 
     // ---- event stream monitor (C12) -----------------------------------------------------------
+    /// operation results (C01 exactly once; C15: an operation the offline policy keeps fails only because the client was closed)
+    fn drain_completions(&mut self) {
+        for completion in self.client.take_completions() {
+            self.note(format!("  RESULT tag {} -> {:?}", completion.tag, completion.result.as_ref().map(|_| "ok")));
+            if self.resolved.contains(&completion.tag) { self.violate("C01", "resolved-twice", format!("publish {} got a second result {:?}", completion.tag, completion.result.as_ref().map(|_| "ok"))); continue; }
+            self.resolved.push(completion.tag);
+            if let Err(kind) = &completion.result {
+                let by_policy = *kind == ErrKind::OfflineQueuePolicyFailed && self.cfg.offline == OfflineQueuePolicy::PreserveNothing;
+                let by_close = *kind == ErrKind::ClientClosed && self.closed;
+                if !by_policy && !by_close {
+                    self.violate("C15", format!("kept-operation-failed-with-{:?}", kind), format!("QoS 1 publish {} failed with {:?} under offline policy {:?}; close requested: {}", completion.tag, kind, self.cfg.offline, self.closed));
+                }
+            }
+        }
+    }
+
     fn drain_events(&mut self) {
+        self.drain_completions();
         let events = self.client.take_events();
         for event in events {
             let name = match &event { EventView::Attempt => "Attempt", EventView::Success { .. } => "Success", EventView::Failure { .. } => "Failure", EventView::Disconnection { .. } => "Disconnection", EventView::Stopped => "Stopped", EventView::PublishReceived(_) => "PublishReceived" };
@@ -507,6 +525,7 @@ impl LWorld {
             (self.loop_state, self.loop_dead, self.connect_deadline_ns.saturating_sub(self.now_ns), self.reconnect_deadline_ns.saturating_sub(self.now_ns), &self.outbuf, self.written, &self.wire_partial).hash(h);
             (self.connect_seen, self.connack_sent, &self.publishes_unacked, self.disconnect_seen, self.attempts, self.requests, self.spent, self.publishes).hash(h);
             (self.stream, self.stop_pending, self.start_since_stop, self.stopped_events.min(3), self.closed, self.connected_since_ns.map(|t| self.now_ns - t)).hash(h);
+            { let mut r = self.resolved.clone(); r.sort(); r.hash(h); }
         }
         ((h1.finish() as u128) << 64) | (h2.finish() as u128)
     }
